@@ -13,6 +13,7 @@ RULES: Dict[str, str] = {
     'R-META-TRIPLES': 'sa.rules.positions:run_meta_triples',
     'R-SHARED-EFFECTS': 'sa.rules.effects:run_effects',
     'R-POSTLEX-RESET': 'sa.rules.effects:run_postlex_reset',
+    'R-ACCEPTS-PURE': 'sa.rules.effects:run_accepts_pure',
     'R-INDENT-PAIRING': 'sa.rules.indenter:run_pairing',
     'R-SPLIT-TOTAL': 'sa.rules.indenter:run_split_total',
     'R-SERIAL-AGREE': 'sa.rules.serial:run_agree',
@@ -102,7 +103,7 @@ PROPERTIES.update({
               'match and a flag-subset test whose operands are sets on every construction path.',
               'tiling/coverage for all inputs; "contextual succeeds whenever basic does".',
               'sort-key normalisation against the documented order; def-use of the ordered list; guard extraction'),
-    'C08': _p(['R-EXC-DISCIPLINE', 'R-POS-AFFINITY', 'R-TOKEN-NONE-TEST', 'R-SPLIT-TOTAL'],
+    'C08': _p(['R-EXC-DISCIPLINE', 'R-POS-AFFINITY', 'R-TOKEN-NONE-TEST', 'R-SPLIT-TOTAL', 'R-ACCEPTS-PURE'],
               'every raise reachable from parse() is an UnexpectedInput or a tabled configuration/internal/documented class; no broad handler '
               'swallows; EOFError of next_token is caught by every caller; the offending token / current position is what the error carries; '
               '$END borrows the last token whenever there is one (identity test, not truthiness); no partial split index on the input path.',
@@ -126,7 +127,7 @@ PROPERTIES.update({
               'instance restored; the fall-back rewrites the file in the reader\'s record order.',
               'value-level equality of the loaded parser (C11); atomicity of the write beyond what the read-side fallback makes harmless.',
               'def-use/taint inside Lark.__init__, CFG dominance and must-pass-through, writer/reader agreement'),
-    'C13': _p(['R-FORK-ALIAS', 'R-SHALLOW-FORK', 'R-TERM-NAME-PROTOCOL'],
+    'C13': _p(['R-FORK-ALIAS', 'R-SHALLOW-FORK', 'R-TERM-NAME-PROTOCOL', 'R-ACCEPTS-PURE'],
               'copies made by the fork API share no state that feeding or lexing writes and are coherent (one copied lexer thread in both '
               'places); shallow forks are only fed with tree-building callbacks off; the terminal/non-terminal classification used by '
               'accepts() and the expected set recognises every name the loader can produce.',
